@@ -23,6 +23,13 @@
        "inplace"  sorts and deduplicates the shared slice    (write access)
    The property needs "copy"; "inplace" is what the pinned tree did (defect, now fixed).
 
+   The second kind of shared location is an attribute LIST a program hands to an entry point that
+   takes the list itself ("list"): Entry.WriteThru (interface LogSlogAware - what adapters call)
+   receives an Attrs value, not variadic arguments that the call copies into its pooled slice.
+   Goroutines in UsesList pass ONE list they share to every such call.  The slice the call sorts
+   is then that list or a copy of it - constant ListSort, same two values, same meaning; the
+   property ("with attribute values they share ... without any data race") needs "copy".
+
    Mechanism variants used only for non-vacuity witness runs (Variant):
        "ok", "putBeforeWrite" (object returned to the pool before it is written out),
        "sharedBuffer" (one package-level buffer instead of pooled objects).                    *)
@@ -34,6 +41,8 @@ CONSTANTS NG,          \* goroutines 1..NG
           K,           \* chunks per record
           GroupSort,   \* "copy" | "inplace"
           UsesGroup,   \* set of goroutines whose calls print the shared group
+          ListSort,    \* "copy" | "inplace": what a call does with an attribute list it was handed as such
+          UsesList,    \* set of goroutines whose calls hand over the shared attribute list (WriteThru)
           Variant
 
 VARIABLES pc,          \* pc[g]: program counter of goroutine g
@@ -84,6 +93,7 @@ SortBegin(g) ==
     /\ pc[g] = "got"
     /\ window' = window \cup {<<g, <<"attrs", hattrs[g]>>, "w">>}
                         \cup (IF g \in UsesGroup THEN {<<g, <<"grp", 0>>, IF GroupSort = "inplace" THEN "w" ELSE "r">>} ELSE {})
+                        \cup (IF g \in UsesList THEN {<<g, <<"list", 0>>, IF ListSort = "inplace" THEN "w" ELSE "r">>} ELSE {})
     /\ pc' = [pc EXCEPT ![g] = "sorting"]
     /\ UNCHANGED <<call, holds, hattrs, buf, delivered, was>>
 
